@@ -59,7 +59,7 @@ func c13Rig(mode string, trace *hx.Log) *Rig { return c13RigMask(mode, trace, 7)
 // c13RigMask configures the tool / prompt / resource list filter iff bit 0 / 1 / 2 of mask is set.
 func c13RigMask(mode string, trace *hx.Log, mask int) *Rig {
 	toolF := func(ctx context.Context, tools []*mcp.Tool) []*mcp.Tool {
-		var out []*mcp.Tool
+		out := tools[:0] // filters in place: the list handed to a filter belongs to this request
 		for _, t := range tools {
 			if t.Name != "secret" || c13Visible(ctx) {
 				out = append(out, t)
@@ -68,7 +68,7 @@ func c13RigMask(mode string, trace *hx.Log, mask int) *Rig {
 		return out
 	}
 	promptF := func(ctx context.Context, ps []*mcp.Prompt) []*mcp.Prompt {
-		var out []*mcp.Prompt
+		out := ps[:0] // filters in place: the list handed to a filter belongs to this request
 		for _, t := range ps {
 			if t.Name != "secret" || c13Visible(ctx) {
 				out = append(out, t)
@@ -77,7 +77,7 @@ func c13RigMask(mode string, trace *hx.Log, mask int) *Rig {
 		return out
 	}
 	resF := func(ctx context.Context, rs []*mcp.Resource) []*mcp.Resource {
-		var out []*mcp.Resource
+		out := rs[:0] // filters in place: the list handed to a filter belongs to this request
 		for _, t := range rs {
 			if t.Name != "secret" || c13Visible(ctx) {
 				out = append(out, t)
@@ -126,7 +126,7 @@ func c13RigMask(mode string, trace *hx.Log, mask int) *Rig {
 	if r.SSE != nil {
 		srv = r.SSE
 	}
-	for _, name := range []string{"echo", "secret"} {
+	for _, name := range []string{"secret", "echo"} { // the hidden entry first: an in-place filter then moves a visible entry over it
 		r.RegisterTool(mcp.NewTool(name), func(ctx context.Context, req *mcp.CallToolRequest) (*mcp.CallToolResult, error) {
 			return mcp.NewTextResult(c13Echo(ctx, srv)), nil
 		})
@@ -201,7 +201,7 @@ func c13Subsets(tier string, i int) CaseResult {
 	obs := &hx.Log{}
 	res := vsched.Run(vsched.Config{}, func() {
 		r := c13RigMask(mode, &hx.Log{}, mask)
-		for _, tok := range []string{"admin", "guest"} {
+		for _, tok := range []string{"guest", "admin", "guest", "admin"} { // a restricted caller first: what it was denied must still be there for the next caller
 			p := NewRawPeer(r)
 			p.P.Headers["X-Tok"] = tok
 			if err := p.Handshake(); err != nil {
